@@ -142,8 +142,10 @@ type recordingShuffler struct {
 	calls []*shuffleCall
 }
 
-func (rs *recordingShuffler) UpdateParams(a, b uint32, h float32, ad bool) { rs.real.UpdateParams(a, b, h, ad) }
-func (rs *recordingShuffler) IsInterfaceNil() bool                        { return rs == nil }
+func (rs *recordingShuffler) UpdateParams(a, b uint32, h float32, ad bool) {
+	rs.real.UpdateParams(a, b, h, ad)
+}
+func (rs *recordingShuffler) IsInterfaceNil() bool { return rs == nil }
 func (rs *recordingShuffler) UpdateNodeLists(args sharding.ArgsUpdateNodes) (*sharding.ResUpdateNodes, error) {
 	sc := newShuffleCall(args)
 	res, err := rs.real.UpdateNodeLists(args)
@@ -176,7 +178,6 @@ type node struct {
 	keyNow        []byte // saved-state key as a block commit after the last delivery would record it
 	keyBeforePrep []byte // key recorded by the last commit before the most recent Prepare
 	putFailed     map[string]bool
-	loadExcluded  uint32 // epoch for which the node is out of the C13 comparison
 }
 
 func (w *world) newShuffler() (sharding.NodesShuffler, error) {
